@@ -1,10 +1,10 @@
-(* C20 -- proofs about the PulseNode model. *)
-From Coq Require Import List Arith NArith Bool Lia.
-From Muscle Require Import Pulse.PulseModel.
-Import ListNotations.
-
-Lemma upd_same m x n : upd m x n x = n.
-Proof. unfold upd. now rewrite Nat.eqb_refl. Qed.
-
-Lemma upd_other m x n y : y <> x -> upd m x n y = m y.
-Proof. intro H. unfold upd. apply Nat.eqb_neq in H. now rewrite H. Qed.
+(* C20 -- index of the proof development about the PulseNode model (Pulse/PulseModel.v):
+     PulseInv.v      invariants (WFx, K1..K6, acyc, Core, Inv0) and list lemmas
+     PulseForest.v   descendants, ranks, the ancestor test
+     PulseResched.v  ReschedulePulseChild
+     PulseOps.v      invalidate / attach / detach / clear / destroy keep [Good G]
+     PulseSweep.v    PulseAux (any Pulse() oracle) and GetPulseTimeAux (operation-free GetPulseTime() oracle)
+     PulseReach.v    reach_inv
+     PulseMin.v      recalc_min *)
+From Muscle Require Export Pulse.PulseModel Pulse.PulseInv Pulse.PulseForest Pulse.PulseResched Pulse.PulseOps
+     Pulse.PulseSweep Pulse.PulseReach Pulse.PulseMin.
